@@ -1,5 +1,17 @@
 #include "h.h"
 
+/* jsonrt <hex text> : json_loadb(JSON_DECODE_ANY) then compact sorted dump */
+static void
+c_jsonrt(void)
+{
+    buf_t t = unhex(F[1]);
+    json_t *j = json_loadb((const char *) t.p, t.n, JSON_DECODE_ANY, NULL);
+    putjson(j);
+    json_decref(j);
+    free(t.p);
+}
+
 const cmd_t cmds_misc[] = {
+    { "jsonrt", c_jsonrt },
     { NULL, NULL }
 };
